@@ -32,6 +32,7 @@ ROOT_CAUSES = {
  "RC-EMPTY": "empty content is accepted by parsers whose format has a mandatory component",
  "RC-FIELDMISC": "field-specific deviation from the documented format (see signature)",
  "RC-B5STRUCT": "Trailer::parse reads only CHK, TNG, DLM and MAC ('more complex parsing for structured tags can be added here'): the structured tags PDE and MRF, which the Trailer struct models and its Display writes, are dropped from any parsed message (as are PDM and SYS, which Display does not write either)",
+ "RC-B3SLASH": "block-3 tags 433 / 434 are documented as 3!a/[20x]; a value whose slash is followed by nothing ('{433:NOK/}') is read as the bare code and written back without the slash",
  "RC-POS16": "parse_block4_fields stamps each value with (line << 16) | (field index & 0xFFFF): beyond 65 535 fields the stamps repeat, so position order (the only order information of the map) is lost",
  "RC-50RENUM": "field 50A/59F numbered lines: the line numbers written are not checked / are renumbered on output",
 }
@@ -55,6 +56,7 @@ RULES = [
  (r"^C17\|MT\d+\|method\|implied-reject-got-normal\|control$", "RC-MUR", None),
  (r"^C17\|consistency\|", "RC-RJT", None),
  (r"^C10\|(direct\|)?block5\|(PDE|MRF)\|dropped$", "RC-B5STRUCT", None),
+ (r"^C10\|(direct\|)?block3\|43[34]\|changed$", "RC-B3SLASH", None),
  (r"^C16\|tokenise\|position-stamps-collide\|over-65536-fields$", "RC-POS16", None),
  (r"^C05\|Field\w+\|over-accept\|blank-line$", "RC-LINES", "C05|*|over-accept|blank-line"),
  (r"^C05\|Field\w+\|over-accept\|(stray-cr|control-char|nonascii)$", "RC-XCHARS", r"C05|*|over-accept|\1"),
